@@ -51,7 +51,9 @@ def case_strategy(draw, max_ops):
         ncol = draw(st.integers(2, 5))
         cols = [list(c) for c in BASE_COLS[:ncol]]
         kw = [list(c) for c in KW_COLS[:draw(st.sampled_from([0, 0, 1, 2]))]]
-        tables.append({"schema": sch, "name": tn, "cols": cols + kw})
+        # a three-part name (project / database . schema . table): ALTER statements may name the table with or without the first part
+        proj = draw(st.sampled_from([None, None, None, "crm", "Prj"])) if sch else None
+        tables.append({"schema": sch, "name": tn, "cols": cols + kw, "project": proj})
         live[(sch, tn)] = [c[0] for c in cols]
         kwcols[(sch, tn)] = [c[0] for c in kw]
     ops = []
@@ -62,6 +64,9 @@ def case_strategy(draw, max_ops):
         kind = draw(st.sampled_from(OP_KINDS))
         op = {"t": ti, "kind": kind, "sch_style": draw(st.sampled_from(SPELL)), "tbl_style": draw(st.sampled_from(SPELL)),
               "form": draw(st.integers(0, 2))}
+        if sch and kind != "index":
+            # 0: as the table was created, 1: schema.table only, 2: with a first part (also when the table was created without one)
+            op["proj"] = draw(st.sampled_from([0, 0, 0, 1, 2]))
         if kind == "add":
             op["name"] = "x%d" % j
             op["default"] = draw(st.sampled_from([None, "0", "'q'", "42"]))
@@ -125,7 +130,9 @@ def case_strategy(draw, max_ops):
 def target(case, op):
     t = case["tables"][op["t"]]
     s = spell(t["schema"], op["sch_style"])
-    return I((s + "." if s else "") + spell(t["name"], op["tbl_style"]))
+    # CREATE INDEX ... ON accepts schema.table only (a three-part name there is rejected by the grammar)
+    proj = {0: t.get("project"), 1: None, 2: t.get("project") or "crm"}[op.get("proj", 0)] if s and op["kind"] != "index" else None
+    return I((proj + "." if proj else "") + (s + "." if s else "") + spell(t["name"], op["tbl_style"]))
 
 
 def alt_head(case, op):
@@ -199,7 +206,7 @@ def undefined_tokens(u):
 
 
 def table_tokens(t):
-    tbl = {"schema": t["schema"], "name": t["name"],
+    tbl = {"schema": (t["project"] + "." + t["schema"]) if t.get("project") else t["schema"], "name": t["name"],
            "items": [{"col": {"name": c[0], "type": c[1], "size": c[2], "opts": []}} for c in t["cols"]]}
     return gen.create_table_tokens(tbl)
 
@@ -363,6 +370,8 @@ class C04(Prop):
         respelled = any(op["tbl_style"] != "plain" or (case["tables"][op["t"]]["schema"] and op["sch_style"] != "plain") for op in case["ops"])
         out.nontrivial = shared and respelled and len(case["ops"]) > 0
         out.label("tables=%d" % len(case["tables"]), "ops=%d" % len(case["ops"]), "shared_name=%s" % shared, "mode:" + case.get("mode", "sql"))
+        if any(t.get("project") for t in case["tables"]) or any(op.get("proj") == 2 for op in case["ops"]):
+            out.label("three-part-name")
         for op in case["ops"]:
             out.label("op:" + op["kind"], "spell:" + op["tbl_style"])
         self.run_and_compare(out, case, None, "full history")
